@@ -8,6 +8,7 @@ import Driver.SupReload
 import Driver.Comp
 import Driver.CompAcc
 import Driver.Http
+import Driver.HttpAcc
 import Driver.Crash
 import Driver.Cluster
 import Driver.Leak
@@ -23,6 +24,7 @@ def dispatch (ws : List String) : String :=
   | "supaccept" :: _ | "c01holds" :: _ | "c02holds" :: _ | "c03holds" :: _ | "c04holds" :: _
   | "known" :: "C02-F2" :: _ => (Driver.Sup.handle ws).getD "bad-op"
   | "relaccept" :: _ | "c05holds" :: _ => (Driver.SupReload.handle ws).getD "bad-op"
+  | "httpaccept" :: _ => (Driver.HttpAcc.handle ws).getD "bad-op"
   | "compaccept" :: _ => (Driver.CompAcc.handle ws).getD "bad-op"
   | "c09holds" :: _ | "c10holds" :: _ | "c11holds" :: _ | "compseq" :: _
   | "known" :: "C09-F1" :: _ => (Driver.Comp.handle ws).getD "bad-op"
